@@ -16,6 +16,7 @@ import (
 
 	"github.com/docker/docker/api/types"
 	"github.com/docker/docker/api/types/container"
+	timetypes "github.com/docker/docker/api/types/time"
 	"github.com/docker/docker/client"
 	"github.com/docker/docker/errdefs"
 )
@@ -107,6 +108,15 @@ type Daemon struct {
 	ListErr    bool
 	// ErrKind is the class of every injected error (one of ErrKinds).
 	ErrKind string
+	// EndUnexpected makes every reader end with io.ErrUnexpectedEOF instead of io.EOF: that is
+	// how net/http reports a response body whose connection went away.
+	EndUnexpected bool
+	// HonourWindow makes ContainerLogs behave like the daemon for the Since / Until options:
+	// the value goes through the client's and the daemon's own parsers (seconds[.fraction], the
+	// fraction scaled by its number of digits), frames older than since are skipped and the log
+	// ends at the first frame newer than until. A frame that cannot be parsed ends the filtering
+	// (the rest is served as it is).
+	HonourWindow bool
 
 	// Waves gives, per ContainerList call, how many ContainerLogs calls are expected to
 	// follow concurrently; Order gives, per wave, the completion order as a permutation of
@@ -323,10 +333,67 @@ func (d *Daemon) ContainerLogs(ctx context.Context, id string, opts container.Lo
 	if c.OpenErr {
 		return nil, d.injected()
 	}
+	data := c.Log
+	if d.HonourWindow {
+		since, err1 := WindowBound(opts.Since)
+		until, err2 := WindowBound(opts.Until)
+		if err1 != nil || err2 != nil {
+			return nil, errdefs.InvalidParameter(fmt.Errorf("Error response from daemon: invalid since/until %q/%q", opts.Since, opts.Until))
+		}
+		data = filterLog(data, since, until, opts.Until != "")
+	}
 	d.mu.Lock()
 	d.opened++
 	d.mu.Unlock()
-	return &reader{d: d, data: c.Log, frag: c.Frag, errAt: c.ReadErrAt}, nil
+	return &reader{d: d, data: data, frag: c.Frag, errAt: c.ReadErrAt}, nil
+}
+
+// WindowBound is what the daemon makes of a Since / Until option: the client library turns the
+// value into "seconds.nanoseconds" (GetTimestamp), the daemon reads that back (ParseTimestamps).
+// An empty value is the zero instant.
+func WindowBound(value string) (time.Time, error) {
+	if value == "" {
+		return time.Time{}, nil
+	}
+	ts, err := timetypes.GetTimestamp(value, time.Unix(4102444800, 0))
+	if err != nil {
+		return time.Time{}, err
+	}
+	sec, nsec, err := timetypes.ParseTimestamps(ts, 0)
+	if err != nil {
+		return time.Time{}, err
+	}
+	return time.Unix(sec, nsec), nil
+}
+
+func filterLog(log []byte, since, until time.Time, hasUntil bool) []byte {
+	var out []byte
+	for len(log) > 0 {
+		if len(log) < 8 {
+			return append(out, log...)
+		}
+		size := int(binary.BigEndian.Uint32(log[4:8]))
+		if log[0] > Stderr || 8+size > len(log) {
+			return append(out, log...)
+		}
+		payload := log[8 : 8+size]
+		sp := strings.IndexByte(string(payload), ' ')
+		if sp < 0 {
+			return append(out, log...)
+		}
+		ts, err := time.Parse(time.RFC3339Nano, string(payload[:sp]))
+		if err != nil {
+			return append(out, log...)
+		}
+		if hasUntil && ts.After(until) {
+			return out
+		}
+		if !ts.Before(since) {
+			out = append(out, log[:8+size]...)
+		}
+		log = log[8+size:]
+	}
+	return out
 }
 
 type reader struct {
@@ -385,6 +452,9 @@ func (r *reader) Read(p []byte) (int, error) {
 		if r.errAt >= 0 && r.errAt <= len(r.data) && r.pos >= r.errAt {
 			return 0, r.d.injected()
 		}
+		if r.d.EndUnexpected {
+			return 0, io.ErrUnexpectedEOF
+		}
 		return 0, io.EOF
 	}
 	if n > limit-r.pos {
@@ -409,7 +479,12 @@ func (r *reader) Close() error {
 
 // NewReader returns a stand-alone reader with the daemon's fragmentation and fault behaviour.
 func NewReader(data []byte, frag []int, errAt int) (io.ReadCloser, *Daemon) {
-	d := &Daemon{}
+	return NewReaderEnding(data, frag, errAt, false)
+}
+
+// NewReaderEnding is NewReader with the way the stream ends (see Daemon.EndUnexpected).
+func NewReaderEnding(data []byte, frag []int, errAt int, endUnexpected bool) (io.ReadCloser, *Daemon) {
+	d := &Daemon{EndUnexpected: endUnexpected}
 	d.opened++
 	return &reader{d: d, data: data, frag: frag, errAt: errAt}, d
 }
